@@ -71,7 +71,7 @@ Mutable == ph = "value" /\ (nm \in MutAll \/ (nm \in MutBase /\ v \in BaseVals))
 X == TE(Schema(nm), v)          \* the item of the unmutated encoding
 Forms == {"wrap", "long", "lz"}
 MutS == /\ Mutable
-        /\ \E p \in Paths(X), f \in Forms :
+        /\ \E p \in Paths(X), f \in Forms \cup {"izero"} :
               /\ FormApplies(At(X, p), f)
               /\ b' = EncAt(X, p, f) /\ ms' = <<<<f, p>>>>
         /\ ph' = "mut" /\ UNCHANGED <<nm, v>>
